@@ -23,7 +23,8 @@ import (
 	"verif/harness/vt"
 )
 
-var c19Personalities = []string{"silent", "answers", "inbound-chatty", "alive-after-probe", "reply-outstanding", "outbound-chatty", "answers-then-silent"}
+var c19Personalities = []string{"silent", "answers", "inbound-chatty", "alive-after-probe", "reply-outstanding", "outbound-chatty", "answers-then-silent",
+	"own-write-after-each-timeout", "send-inside-probe-window"}
 
 func TestC19Linktest(t *testing.T) {
 	ev.Rule("(role, threshold 1..4, suppression on/off, interval 40/60/100 ms, T6 50/80 ms) x peer personality: silent; answers every probe; chatty (sends data every interval/2, never answers); alive only after each probe (a data frame 5 ms after every Linktest.req, never answers); reply outstanding (a reply-expected send in flight, peer silent, T3 2 s); local fire-and-forget traffic every interval/2 with a silent peer; answers for a while then falls silent; oracle (virtual time): a dead silent link is dropped at exactly threshold x (interval + T6) after its last sign of life and after exactly `threshold` probes; a link showing life per the suppression rules is never dropped over 6 x that; with suppression no probe is sent while traffic flowed within the last interval or a reply is outstanding; without it one probe per interval and every timeout counts; non-trivial = the personality shows life at least once and the run contains at least one probe timeout")
@@ -250,6 +251,78 @@ func runC19(rt *rapid.T) {
 		case <-done:
 		case <-time.After(5 * time.Second):
 			fail("the reply-expected send never returned")
+		}
+	case "own-write-after-each-timeout":
+		// A silent peer; after every probe timeout the application sends one fire-and-forget message.
+		// Own writes defer the next probe (rule 1) but never forgive a counted failure: the dead link is
+		// still dropped after exactly `threshold` probes.
+		showsLife = false
+		p.SetOnFrame(func(f e37.Frame) {
+			if f.SType != e37.LinktestReq {
+				return
+			}
+			bg.Add(1)
+			go func() {
+				defer bg.Done()
+				time.Sleep(T6 + time.Millisecond)
+				if stop.Load() {
+					return
+				}
+				ctx, cancel := ctxT(time.Second)
+				_, _ = w.conn.SendDataMessage(ctx, 6, 11, false, secs2.A("still here"))
+				cancel()
+			}()
+		})
+		time.Sleep(6*B + time.Second)
+		synctest.Wait()
+		eof, when, _ := p.EOF()
+		if !eof {
+			fail("a silent peer was never dropped although every probe timed out (own writes must not forgive failures)")
+		}
+		if n := len(probeTimes()); n != threshold {
+			fail("%d probes before the drop, threshold is %d", n, threshold)
+		}
+		if d := when.Sub(t0); d < B || d > B+time.Duration(threshold)*(I+5*time.Millisecond) {
+			fail("the link was dropped at +%v; %d timeouts with one deferred interval each give about %v", d, threshold, B)
+		}
+		sawTimeout = true
+		stop.Store(true)
+	case "send-inside-probe-window":
+		// The peer ignores probes; a reply-expected send goes out 5 ms after the first probe (inside
+		// its T6 window) and is never answered. With suppression the failure evaluation sees a reply
+		// outstanding and must credit it (and the re-check likewise): no drop before that send's T3.
+		showsLife = suppress
+		var once sync.Once
+		var sentAt time.Time
+		p.SetOnFrame(func(f e37.Frame) {
+			if f.SType != e37.LinktestReq {
+				return
+			}
+			once.Do(func() {
+				bg.Add(1)
+				go func() {
+					defer bg.Done()
+					time.Sleep(5 * time.Millisecond)
+					sentAt = time.Now()
+					_, _ = w.conn.SendDataMessage(context.Background(), 1, 1, true, secs2.A("long running"))
+				}()
+			})
+		})
+		if suppress {
+			time.Sleep(I + 5*time.Millisecond + T3 - 2*time.Millisecond)
+			synctest.Wait()
+			if eof, when, _ := p.EOF(); eof {
+				fail("the link was dropped at +%v while a reply was outstanding (send at +%v, T3 %v)", when.Sub(t0), sentAt.Sub(t0), T3)
+			}
+			time.Sleep(4*B + 2*I + time.Second)
+			synctest.Wait()
+			if eof, _, _ := p.EOF(); !eof {
+				fail("after the reply timed out the silent link was never dropped")
+			}
+			sawTimeout = true
+		} else {
+			expectDropAt(B, threshold)
+			sawTimeout = true
 		}
 	case "outbound-chatty":
 		showsLife = false
